@@ -32,6 +32,10 @@ def timer(draw, nid, ins, horizon, start):
     sched = gen.rebase_sched(draw(gen.sched_script(horizon, 0)), start)
     node = {"id": nid, "op": "node", "ins": ins, "out": "TS[int]", "fn": draw(st.sampled_from(["sum", "acc", "count"])),
             "sched": sched, "tags": gen.TAGS, "valid": [], "log_inputs": False}
+    if ins and draw(st.integers(0, 2)) == 0:
+        # default validity: the node can be woken (tick or timer) while an input is still invalid, i.e. visited but
+        # not ready - its pending wake-ups must survive that
+        del node["valid"]
     if draw(st.integers(0, 4)) == 0:
         node["schedule_on_start"] = True
     return node
